@@ -1,5 +1,15 @@
-"""C15 - see harness/iindex_hist.py (shared generator, abstraction and NumPy oracle of C06/C07/C15) and
-coq/theories/Properties/C15.v.  This check judges the C15 part of every step: IIndex/Check.v chk15."""
+"""C15 - library-chosen common is a most frequent value; equality is canonical.
+
+Theorems: coq/theories/Properties/C15.v (auto_common is a maximum; canonical; eq_spec / ne_spec; iindex-proofs).
+Tie (this check): harness/iindex_hist.py `run_check(ctx, "C15")` - the C06 histories, and
+  * after each library-chosen normalisation (from_array without a common, shift_common(), append, filtered, collapsed) the
+    real common is a most frequent value of the real dense content (`chk15`, `chk07from`; ties either way);
+  * every result is compared with ==/!= against its directly constructed twin from_array(dense, common=same), its copy,
+    itself, perturbed twins (one cell, the common, the shape, the same rows in another order), an index reached by another
+    history, and non-index operands; both directions; `!=` must be exactly `not ==` and never raise (a raising comparison is
+    recorded as -1); inside Coq `chk15eq` compares the real answers with `eq_model`/`ne_model` AND with
+    "same shape, common and dense content".
+Notes: notes/iindex-harness.md."""
 from .. import iindex_hist
 
 
